@@ -6,6 +6,7 @@
 -/
 import Reclass.Driver.Codec
 import Reclass.Driver.InvOps
+import Reclass.Driver.CfgOps
 namespace Reclass.Ops
 open Lean Reclass Reclass.Codec
 
@@ -87,6 +88,7 @@ def dispatch (j : Json) : Except String Json := do
   | "parse" => opParse j
   | "inventory" => InvOps.opInventory j
   | "abs" => opAbs j
+  | "config" => CfgOps.opConfig j
   | _ => throw s!"unknown op {op}"
 
 def handleLine (line : String) : String :=
